@@ -6,7 +6,7 @@ exception; a malformed item produces no dispatch and a well-formed item next to 
 exactly as in C01 (per-item loop contracts).  Only Twisted's own length limits close a connection
 (A-TWISTED-FRAMING).
 """
-from pyvc.runner import Unit, Property
+from pyvc.runner import Unit, Property, Bounded
 from . import proto_units as PU
 
 
@@ -40,6 +40,9 @@ def replay(model, ob):
 def build():
   return Property(
     'C11', units(),
+    bounded=[Bounded('C11/native/malformed_input_cross_check', 'replay/receivers_native.py', ['--what', 'c11', '--n', '400'], ['--what', 'c11', '--n', '30000'],
+                     "400 (quick) / 30000 (thorough) seeded random streams: 1..4 well-formed datapoints with 1..3 malformed lines from a table of 18 (invalid UTF-8 incl. surrogates and truncated sequences, field counts 0/1/2/4, unparsable and non-finite numbers, NUL, 500 bytes of garbage) in between, 13 malformed pickle frames and 31 malformed entry shapes (wrong arity, wrong element types, tuple / list / dict / bytes names, huge ints, nan / inf) inside and between good frames, random segmentation, MIN_TIMESTAMP_RESOLUTION 0 / 10, plus byte-level mutations (flip / insert / delete) of valid line streams, datagrams and pickle bodies: no exception escapes, the transport is not closed, the well-formed neighbours arrive exactly as if the malformed item were absent",
+                     "cross-check of the raise-contracts assumed for CPython's decode / split / float / int / pickle (A-STR, A-PICKLE) on real bytes; random, not exhaustive")],
     trusted_base=['A-ENGINE', 'A-SMT', 'A-STR', 'A-PICKLE', 'A-TWISTED-FRAMING'],
     assumptions=[
       "A-STR raise-contracts: bytes.decode('utf-8') raises only UnicodeDecodeError; 3-target unpack of split() raises ValueError iff the field count is not 3; float(text) raises ValueError iff the text has no float syntax and may return nan/+-inf; int(nan) raises ValueError, int(+-inf) OverflowError",
